@@ -70,6 +70,10 @@ pub fn judge(spec: &Spec, notes: &mut (bool, bool)) -> Result<(), String> {
         Err(e) => Err(format!("[synth-open-failed] a structurally clean synthesised v{version} image does not open (ttl={ttl}): {e}")),
         Ok(o) => {
             if o.contents.map == exp {
+                // ... and nothing else is indexed: len() and the ordered index agree with the reads
+                if o.contents.len != exp.len() || o.contents.range_len != exp.len() {
+                    return Err(format!("[synth-recovery-len] recovery of a synthesised v{version} image (ttl={ttl}) exposes {} keys through reads but len() is {} and a full range query returns {} (a key that expired before the reopen is still indexed)", exp.len(), o.contents.len, o.contents.range_len));
+                }
                 return Ok(());
             }
             let mut diffs = Vec::new();
@@ -97,7 +101,20 @@ pub fn strategy() -> BoxedStrategy<Spec> {
         proptest::collection::vec(c15::item(), 1..30),
         proptest::collection::vec(any::<u8>(), 0..3),
         proptest::bool::weighted(0.75),
+        // one image in ten: a run of 257-700 distinct unexpired keys (more than one batch of the
+        // expired-winner pass, 256) with expired keys before, inside and behind it in key order
+        prop_oneof![9 => Just((0usize, 0u8, 0u8)), 1 => (257usize..700, 1u8..4, 0u8..3)],
     )
+        .prop_map(|(version, mut items, journal, ttl, (run, behind, inside))| {
+            for i in 0..run {
+                let expired = inside > 0 && i % 97 == 13 && (i / 97) < inside as usize;
+                items.push(Item::Record { key: (i % 256) as u8, rank: (i / 256) as u8, vlen: 8 + (i % 40) as u16, blocks: 0, expiry: if expired { 1 } else if i % 5 == 0 { 2 } else { 0 }, long_key: 4, ghost: 0 });
+            }
+            for j in 0..if run > 0 { behind } else { 0 } {
+                items.push(Item::Record { key: j, rank: 1, vlen: 20, blocks: 0, expiry: 1, long_key: 5, ghost: 0 });
+            }
+            (version, items, if run > 0 { Vec::new() } else { journal }, ttl || run > 0)
+        })
         .boxed()
 }
 
@@ -144,7 +161,7 @@ pub fn campaign(property: &'static str, tier: Tier, seed: u64) -> (i32, serde_js
         "images": evaluations.load(Ordering::Relaxed),
         "distinct_nontrivial": nt.lock().unwrap().len(),
         "expired_newest_below_older_generation": lower.load(Ordering::Relaxed),
-        "rule": "proptest-generated v2/v3 device images built with the independent codec (duplicate generations of a key in both scan orders and with equal timestamps, expired / far-future / saturated expiries, multi-block records, complete and pending retirement markers, gaps, active journal slots over arbitrary extents) are opened with TTL on or off at a fixed virtual time; the recovered (key, value, timestamp, expiry) set must equal the codec's newest-wins decode minus the keys whose newest generation is expired (TTL on). Non-trivial: an image in which the newest generation of some key is expired while an older generation of it is still on the device.",
+        "rule": "proptest-generated v2/v3 device images built with the independent codec (duplicate generations of a key in both scan orders and with equal timestamps, expired / far-future / saturated expiries, multi-block records, complete and pending retirement markers, gaps, active journal slots over arbitrary extents; one image in ten with a run of 257-700 distinct keys - more than one 256-key batch of recovery's expired-winner pass - and expired keys inside and behind the run) are opened with TTL on or off at a fixed virtual time; the recovered (key, value, timestamp, expiry) set must equal the codec's newest-wins decode minus the keys whose newest generation is expired (TTL on), and len() as well as a full range query must count exactly those keys. Non-trivial: an image in which the newest generation of some key is expired while an older generation of it is still on the device.",
         "sample": sample.lock().unwrap().clone(),
         "failure": failure,
     });
